@@ -82,12 +82,8 @@ PLAN = {
                 technique='Verus: Box ownership transfer (cells / owners / destructor runs / moves-out) and trait forwarding on the real boxed.rs functions; bounded Kani harnesses for value round trips of fixed type instances',
                 explanation="PARTIAL. Proof: from_raw, into_raw, leak, into_inner, new_in, pin_in, Drop, Pin::from, downcast (both flavours), [T;N]<->[T] conversions, Vec::into_boxed_slice, Deref/DerefMut are verified to name the same cell and to leave owners / destructor runs / moves-out exactly as std's Box documents (one owner before and after, drop runs the destructor once and releases nothing); the comparison, Hasher and ExactSizeIterator impls are verified to forward to the SAME method of the inner value with the same arguments, exactly once. BOUNDED in type instances (Kani): value round trips through into_inner/into_raw/from_raw/leak/pin_in for u32, [u32;3], [u8;3], (), dyn Any, a drop-counting type; iterate/poll/format impls are not extracted."),
     'C16': dict(v=['vecpanic', 'strretain', 'drainfilter', 'dedup', 'vecops'], level='proof', k_quick=['k_cb_retain_len_zero'], k_thorough=['k_drop_forgotten_iterators'],
-                technique='Verus callback-point contracts on the real truncate/extend_with bodies (what an unwind would restore); partial',
-                explanation='PARTIAL. Neither Verus nor Kani can execute an unwind. For the operations that protect themselves with a scope guard (Vec::truncate, '
-                            'and through it clear/resize-shrink/dedup*; Vec::extend_with, i.e. resize-grow/extend_from_slice; String::retain; DrainFilter::next/drop, i.e. drain_filter and Vec::retain; the swap-only compaction loop behind dedup/dedup_by/dedup_by_key) every call into user code (element '
-                            'destructor, Clone, predicate) carries the precondition "the length the guard would restore if this call panicked covers only live slots / the '
-                            'compacted valid prefix"; it is discharged on the real bodies for all lengths. Operations guarded by other means (drain/'
-                            'splice/IntoIter drops, arena slice fills, Box) are NOT decided.',
+                technique='Verus callback-point contracts on the real bodies (what an unwind would restore / expose at every call into user code); partial',
+                explanation='PARTIAL. Neither Verus nor Kani can execute an unwind. What is proved, for all lengths: at every call into user code (element destructor, Clone, predicate, user iterator, initialiser closure) the state an unwind would leave is safe: Vec::truncate (the slot is no longer counted when its destructor runs; => clear, shrinking resize, dedup*), Vec::extend_with (length covers only initialised slots; => growing resize), Drain::fill / Splice::drop (length covers only initialised slots whenever the replacement iterator runs), Drain::drop (no moved-out slot is reachable while element destructors run), String::retain (guard truncates to the compacted valid prefix), DrainFilter::next/drop (=> drain_filter, Vec::retain), the swap-only compaction loop behind dedup*, and the arena slice/value workers (the arena invariant holds whenever the initialiser runs, so the arena stays usable). These contracts are tied to the SHAPE of the guard code: a change that restructures a guard is answered UNDECIDED, not violation (seeds R3-C16-1/2). Not decided: Box, IntoIter element drops during unwinding, unwinding itself.',
                 assumptions=['element values are abstracted to slot indices (rewrite R16); Vec::reserve is an assumed shim in this unit']),
     'C18': dict(v=VRV, level='proof', k_quick=['k_vec_shrink_moves'], k_thorough=['k_vec_reserve_shrink_small', 'k_ncmd'],
                 technique='Verus: capacity postcondition of the constructor, chunk_capacity spec + fast-path completeness; growth policy by Kani; RawVec arithmetic by Verus',
